@@ -78,6 +78,55 @@ Theorem C18_regression_rule_persisted :
     srule s' = Some (Rule 5 ["zone"]) /\ strule s' = Some (Rule 5 ["zone"]).
 Proof. exact regression_rule_persisted. Qed.
 
+(* ---------- histories WITH leader changes ----------
+   A leader change (model: leader_change = PersistOptions.Reload of the served options + fresh RuleManager / ModeManager from
+   storage) is an operation of the history.  `hdefinite`: no rule write SINCE THE LAST LEADER CHANGE was applied-but-reported-
+   failed; whatever happened before a leader change does not matter, because the new leader serves what is stored. *)
+Definition C18_accepted_is_reloaded_with_leader_changes_full : Prop := accepted_full_h.
+Theorem C18_accepted_is_reloaded_with_leader_changes : C18_accepted_is_reloaded_with_leader_changes_full.
+Proof. exact accepted_full_h_pf. Qed.
+(* the new leader serves exactly the reload of the config key, and (placement rules on) the stored default rule; it writes
+   nothing to the config key; a second change right after changes nothing; reloading a reloaded configuration is the identity *)
+Theorem C18_new_leader_serves_reload : forall s c, stored s = Some c -> served (leader_change s) = reload_conf c.
+Proof. exact new_leader_serves_reload_pf. Qed.
+Theorem C18_new_leader_serves_stored_rule :
+  forall s r, rp_pr (c_repl (served (leader_change s))) = true -> strule s = Some r ->
+    srule (leader_change s) = Some r /\ strule (leader_change s) = Some r.
+Proof. exact new_leader_serves_stored_rule_pf. Qed.
+Theorem C18_leader_change_keeps_storage : forall s, stored (leader_change s) = stored s.
+Proof. exact leader_keeps_storage. Qed.
+Theorem C18_leader_change_idempotent : forall s, leader_change (leader_change s) = leader_change s.
+Proof. exact leader_change_idem_pf. Qed.
+Theorem C18_reload_idempotent : forall c, reload_conf (reload_conf c) = reload_conf c.
+Proof. exact reload_idem. Qed.
+Example C18_nonvacuous_leader :
+  let hs := [HSet (OSetReplication (Repl 5 ["zone"] "" true false) (Fault GRule 0 FAfter)); HLeader;
+             HSet (OSetSchedule (Sched 0 900 600 ["label"] [false; false; false; false; false; false] 0 7) NoFault); HLeader] in
+  hdefinite (hs ++ [HSet (OSetVersion (Some (5, 0, 0)) NoFault)]) /\
+  map o_res (run run_hop (boot base_conf) hs) = [RStorage; ROk; ROk; ROk] /\
+  srule (hreach base_conf hs) = Some (Rule 5 ["zone"]) /\          (* the rule write that was applied-but-failed is what the new leader serves *)
+  sc_scheds (c_sched (served (hreach base_conf hs))) = ["label"; "balance-region"; "balance-leader"; "hot-region"].
+Proof. vm_compute. repeat split; exact I. Qed.
+
+(* ---------- the other writers of the served configuration: SetLabelPropertyConfig (whole map), SetStoreLimit, SetAllStoresLimit ----------
+   They are operations of the same histories, so the three statements above cover them; what each of them changes when accepted: *)
+Theorem C18_label_map_setter :
+  forall s m f s', run_cmd s (OSetLabelMap m f) = (s', ROk) -> served s' = with_lp (served s) m.
+Proof.
+  intros s m f s' H. cbn [run_cmd] in H. unfold do_set_label_map in H.
+  destruct (swap_persist_spec _ _ _ _ _ H) as (_&_&_&_&[(_&A&_)|(E&_)]); [exact A|discriminate].
+Qed.
+Theorem C18_store_limit_setters :
+  forall s s',
+    (forall id t rate dflt f, run_cmd s (OSetStoreLimit id t rate dflt f) = (s', ROk) ->
+       served s' = with_limits (served s) (lim_set (c_limits (served s)) id t rate dflt)) /\
+    (forall t rate f, run_cmd s (OSetAllLimits t rate f) = (s', ROk) ->
+       served s' = with_limits (served s) (lim_all (c_limits (served s)) t rate)).
+Proof.
+  intros s s'. split; intros; cbn [run_cmd] in H; unfold do_set_store_limit, do_set_all_limits in H;
+    destruct (swap_persist_spec _ _ _ _ _ H) as (_&_&_&_&[(_&A&_)|(E&_)]); try exact A; discriminate.
+Qed.
+
 (* ---------- non-vacuity ---------- *)
 Definition ex_ops : list op :=
   [OSetSchedule (Sched 0 900 600 ["balance-leader"] [false; false; false; false; false; false] 0 7) NoFault;
@@ -111,3 +160,11 @@ Print Assumptions C18_regression_rule_labels_rolled_back.
 Print Assumptions C18_accepted_config_is_stored.
 Print Assumptions C18_accepted_is_reloaded.
 Print Assumptions C18_regression_rule_persisted.
+Print Assumptions C18_accepted_is_reloaded_with_leader_changes.
+Print Assumptions C18_new_leader_serves_reload.
+Print Assumptions C18_new_leader_serves_stored_rule.
+Print Assumptions C18_leader_change_keeps_storage.
+Print Assumptions C18_leader_change_idempotent.
+Print Assumptions C18_reload_idempotent.
+Print Assumptions C18_label_map_setter.
+Print Assumptions C18_store_limit_setters.
